@@ -26,8 +26,12 @@ def salt_problems(trace, cfgs):
             continue
         seen = set()
         prev = None
+        refused = 0
         for t in items:
             salt = t["salt"]
+            if t.get("kind") == "refused":
+                refused += 1  # a request refused before anything was sent may or may not have used up a counter value
+                continue
             if t["flags"] is None or salt is None:
                 continue
             if len(salt) != 8:
@@ -41,9 +45,10 @@ def salt_problems(trace, cfgs):
                 ctr, mod = int.from_bytes(salt[4:], "big"), 1 << 32
             else:
                 ctr, mod = int.from_bytes(salt, "big"), 1 << 64
-            if prev is not None and ctr != (prev + 1) % mod:
-                probs.append(("salt", "salt counter went from %#x to %#x between consecutive messages" % (prev, ctr)))
+            if prev is not None and not 1 <= (ctr - prev) % mod <= 1 + refused:
+                probs.append(("salt", "salt counter went from %#x to %#x between consecutive messages%s" % (prev, ctr, (" (%d refused request(s) in between)" % refused) if refused else "")))
             prev = ctr
+            refused = 0
     return probs
 
 
